@@ -187,6 +187,27 @@ def inst_time_units(cx, iid):
                                            at=b.span_at(loc))
 
 
+def effective_defs(b, fa, l):
+    """definitions of local l as (loc, printed value, fact alternatives); a definition that mentions one other
+    multi-definition local (`2 * (if c { a } else { b })`) is expanded over that local's definitions, with the facts of
+    both places"""
+    out = []
+    for loc, kind, node in b.defs.get(l, []):
+        e = b.rvalue_expr(node["rv"]) if kind == "assign" else b.call_expr(node)
+        v = show(e)
+        alts = (fa.at(loc) or []) if fa else []
+        inner = [int(x) for x in set(re.findall(r"\bvar(\d+)\b", v)) if len(b.defs.get(int(x), [])) > 1 and int(x) != l]
+        if len(inner) == 1:
+            from rules import subst_var
+            for loc2, kind2, node2 in b.defs[inner[0]]:
+                e2 = b.rvalue_expr(node2["rv"]) if kind2 == "assign" else b.call_expr(node2)
+                alts2 = (fa.at(loc2) or []) if fa else []
+                out.append((loc2, show(subst_var(e, inner[0], e2)), [frozenset(a) | frozenset(a2) for a in alts for a2 in alts2] if fa else []))
+        else:
+            out.append((loc, v, alts))
+    return out
+
+
 def store_cases(b, fa, loc, node):
     """a store `field = v` where v is a local assigned in several arms (`let x = match .. {..}; self.f = x`) is read as
     one store per definition of v, each with the facts holding where that value was chosen"""
@@ -248,8 +269,9 @@ def inst_rate_floor(cx, iid):
         fa = cx.fa(hf)
         lim = {}
         for l in range(len(hf.locals)):
-            ds = hf.defs.get(l, [])
-            vals = [(loc, show(hf.rvalue_expr(node["rv"])) if kind == "assign" else show(hf.call_expr(node))) for loc, kind, node in ds]
+            if len(hf.defs.get(l, [])) < 2:
+                continue
+            vals = [(loc, v) for loc, v, _ in effective_defs(hf, None, l)]
             if len(vals) == 3 and all("RecvRateSet::" in v for _, v in vals):
                 for loc, v in vals:
                     lim[re.sub(r"\(.*", "", v.replace("u32::saturating_mul(", "2x "))] = v
@@ -318,8 +340,11 @@ def inst_update_guards(cx, iid):
                                   (r"div\(arg1\.send_rate,2\)", [r"is\(%s,Some\)" % TLD])],
         }
         for l in range(len(b.locals)):
-            ds = b.defs.get(l, [])
-            vals = [(loc, show(b.rvalue_expr(node["rv"])) if kind == "assign" else show(b.call_expr(node))) for loc, kind, node in ds]
+            if len(b.defs.get(l, [])) < 2:
+                continue
+            eds = effective_defs(b, fa, l)
+            vals = [(loc, v) for loc, v, _ in eds]
+            ealts = {(loc, v): a for loc, v, a in eds}
             for tname, rows in tables.items():
                 if len(vals) == len(rows) and any(re.fullmatch(rows[0][0], v) for _, v in vals):
                     for loc, v in vals:
@@ -328,7 +353,7 @@ def inst_update_guards(cx, iid):
                         if not row:
                             inst.violation(b.path, tname, "%s is computed as `%s`, which is none of its RFC 5348 forms" % (tname, v[:140]), at=b.span_at(loc))
                             continue
-                        alts = fa.at(loc) or []
+                        alts = ealts.get((loc, v)) or []
                         if not alts or any(not alt_satisfies(a, row[0]) for a in alts):
                             inst.violation(b.path, tname + " guard", "%s takes the value `%s` outside its condition (%s)" % (tname, v[:100], " and ".join(g.replace("\\", "") for g in row[0])), at=b.span_at(loc))
 
@@ -448,6 +473,12 @@ def run(cx):
             e = show(nf.rvalue_expr(n["rv"]))
             inst.site(nf, l, "nofeedback_exp_ms = " + e)
             ok = e in ("Some{add(2000,arg2)}", "Some{add(arg2,2000)}")
+            mnf = re.fullmatch(r"Some\{add\((?:arg2,([\w:]+)|([\w:]+),arg2)\)\}", e)
+            if not ok and mnf:
+                try:    # the 2 s as a named constant
+                    ok = R.const_int(mnf.group(1) or mnf.group(2)) == 2000
+                except Exception:
+                    ok = False
         if not ok:
             inst.violation(nf.path, "initial nofeedback timer", "the initial no-feedback timer is not now + 2000 ms")
 
